@@ -8,7 +8,9 @@
 (* The configuration of the chain (post.env, read from the parameter stores after every      *)
 (* call) changes during the histories through passed proposals; P does not read it, M takes  *)
 (* the slash fractions and the gov burn switches in force before the call from it, and the   *)
-(* checked slashes / deposit burns are counted per configuration class (cnt, "kind/class").  *)
+(* checked slashes / deposit burns are counted per configuration class (cnt, "kind/class"),   *)
+(* which includes the network the chain runs as (env.net, from the chain id of the block      *)
+(* context) and whether its history started above height 1 (env.h0).                          *)
 EXTENDS BurnRedirect
 
 VARIABLES l, viol, div, nscn, par, cnt
@@ -28,11 +30,12 @@ Norm(p) == [p EXCEPT !.community   = [d \in DOMAIN @ |-> Dec(@[d])],
 ParOf(env) == [fd |-> <<env.fracDouble, E18>>, ft |-> <<env.fracDowntime, E18>>, pr |-> env.powerReduction,
                bond |-> env.bondDenom]
 
-EnvClassNames == {"sendOff", "tax0", "tax1", "erc20Off", "nonDepositDenom"}
+EnvClassNames == {"sendOff", "tax0", "tax1", "erc20Off", "nonDepositDenom", "lateStart"} \cup {"net:" \o n : n \in NetNames}
+NetTags(cs) == Tag(cs, "net:testedge1") \o Tag(cs, "net:testedge2") \o Tag(cs, "net:local") \o Tag(cs, "net:other") \o Tag(cs, "lateStart")
 Under(e, s, t) ==
     LET cs == EnvClasses(s.env, LAMBDA d : IF IsControl(e) THEN e.args.burn[d] ELSE Destroyed(e, s, t, d), D(s)) IN
-    IF cs = {} THEN "default"
-    ELSE Tag(cs, "sendOff") \o Tag(cs, "tax0") \o Tag(cs, "tax1") \o Tag(cs, "erc20Off") \o Tag(cs, "nonDepositDenom")
+    IF cs = {"net:main"} THEN "default"
+    ELSE Tag(cs, "sendOff") \o Tag(cs, "tax0") \o Tag(cs, "tax1") \o Tag(cs, "erc20Off") \o Tag(cs, "nonDepositDenom") \o NetTags(cs)
 CovKeys(e, s, t) ==
     (IF StepKind(e) \in {"slash", "deposit-burn"}
      THEN {StepKind(e) \o "/" \o c : c \in EnvClasses(s.env, LAMBDA d : Destroyed(e, s, t, d), D(s))} ELSE {})
